@@ -318,14 +318,14 @@ Definition shape_unary (G R : geom) : bool :=
   implb (is_empty G) (is_empty R) && (dimension R <=? dimension G).
 
 Record verdict := mkVerdict {
-  v_valid : bool; v_shape : bool; v_sides : list hpt; v_lows : list hpt; v_segs : list seg; v_pts : list pt;
+  v_valid : bool; v_shape : bool; v_sides : list hpt; v_lows : list hpt; v_lows2 : list hpt; v_segs : list seg; v_pts : list pt;
   v_nside : Z; v_nfar : Z; v_nlow : Z; v_nexp : Z }.
 Definition count {X} (f : X -> bool) (l : list X) : Z := Z.of_nat (length (filter f l)).
 Definition overlay_verdict (unary : bool) (p : params) (o : ovop) (A B R : geom) : verdict :=
   let sw := side_witnesses p A B R in
   let lw := low_witnesses p A B R in
   mkVerdict (valid_geom R) (if unary then shape_unary A R else shape_ok o A B R)
-            (filter (side_bad p o A B R) sw) (filter (low_bad p o A B R) lw ++ bad_lows2 p o A B R)
+            (filter (side_bad p o A B R) sw) (filter (low_bad p o A B R) lw) (bad_lows2 p o A B R)
             (bad_low_segs p A B R) (bad_low_pts p o A B R)
             (Z.of_nat (length sw)) (count (far_inputs p A B) sw) (Z.of_nat (length lw))
             (count (fun q => stable_inputs p A B q && expected o A B q) lw).
